@@ -15,7 +15,7 @@
  *   --len <n>                        all histories up to this length over the alphabet
  *   --scripted 0|1                   include the scripted longer histories
  *   --classes <mask>                bit i set = generate image class i (0 min 1 max 2 dir-ahead
- *                                    3 data-ahead 4 intermediate 5 torn)
+ *                                    3 data-ahead 4 intermediate 5 torn 6 per-file product)
  *   --nested 0|1|2                   crash points inside recovery (1: for min/max images of
  *                                    distinct outer images, 2: all distinct outer images)
  */
@@ -35,7 +35,7 @@ static int nested_mode = 1;
 static int class_mask = 0x7f; /* which image classes are generated (bit = class id) */
 static int bg_starve;    /* histories run without automatic draining (explicit W ops) */
 
-static uint64_t n_hist, n_points, n_images, n_distinct_images, n_recoveries, n_nested, n_followups, n_torn, n_full_products;
+static uint64_t n_hist, n_points, n_images, n_distinct_images, n_recoveries, n_nested, n_followups, n_torn, n_product, n_product_capped;
 static uint64_t n_journal;
 static uint64_t point_counter;
 static vh_set_t outcome_set;
@@ -277,6 +277,7 @@ typedef struct img_desc_s {
   int torn_ino;
   size_t torn_len;
   int others_written; /* lengths of the other files: 1 = written, 0 = synced */
+  unsigned prod_mask; /* class 6: bit j set = the j-th file (inode order) that has an unsynced tail keeps its written length */
   int paranoid;
   int nest_t, nest_cls; /* -1: none */
 } img_desc_t;
@@ -290,6 +291,14 @@ fill_lens(const rec_t *r, const img_desc_t *d, const size_t *W, const size_t *S,
     lens[i] = d->others_written ? W[i] : S[i];
   if (d->cls == 5 && d->torn_ino >= 0)
     lens[d->torn_ino] = d->torn_len;
+  if (d->cls == 6) {
+    int j = 0;
+    for (i = 0; i < r->v->ninodes; i++) {
+      if (r->v->inodes[i]->is_dir || W[i] <= S[i]) continue;
+      lens[i] = (j < 5 && ((d->prod_mask >> j) & 1u)) ? W[i] : S[i];   /* files beyond the fifth keep the synced length */
+      j++;
+    }
+  }
 }
 
 static void
@@ -310,13 +319,13 @@ report(const rec_t *r, const img_desc_t *d, const char *kind, const char *msg) {
   vb_init(&hb); vb_init(&rp); vb_init(&dt);
   khist_print(r->h->ops, r->h->n, &hb);
   kcfg_print(&cfg, cfgtxt, sizeof(cfgtxt));
-  vb_printf(&rp, "{\"base\":\"%s\",\"history\":\"%s\",\"cfg\":\"%s\",\"starve\":%d,\"t\":%d,\"D\":%d,\"cls\":%d,\"torn_ino\":%d,\"torn_len\":%zu,\"others_written\":%d,\"paranoid\":%d,\"nest_t\":%d,\"nest_cls\":%d}",
-            base_text, hb.p ? hb.p : "", cfgtxt, bg_starve, d->t, d->D, d->cls, d->torn_ino, d->torn_len, d->others_written, d->paranoid,
+  vb_printf(&rp, "{\"base\":\"%s\",\"history\":\"%s\",\"cfg\":\"%s\",\"starve\":%d,\"t\":%d,\"D\":%d,\"cls\":%d,\"torn_ino\":%d,\"torn_len\":%zu,\"others_written\":%d,\"prod_mask\":%u,\"paranoid\":%d,\"nest_t\":%d,\"nest_cls\":%d}",
+            base_text, hb.p ? hb.p : "", cfgtxt, bg_starve, d->t, d->D, d->cls, d->torn_ino, d->torn_len, d->others_written, d->prod_mask, d->paranoid,
             d->nest_t, d->nest_cls);
   if (nbase_ops) vb_printf(&dt, "prepared by [%s]; ", base_text);
   vb_printf(&dt, "history [%s] cfg %s; crash at journal index %d of %d, image %s (dir ops %d, %s%s), paranoid=%d%s: %s",
             hb.p ? hb.p : "", cfgtxt, d->t, r->v->njournal, cls_name[d->cls], d->D,
-            d->others_written ? "files at written length" : "files at synced length",
+            d->cls == 6 ? "per-file choice of written/synced length" : d->others_written ? "files at written length" : "files at synced length",
             d->cls == 5 ? ", one file torn" : "", d->paranoid, d->nest_t >= 0 ? ", then a second crash inside recovery" : "", msg);
   snprintf(sig, sizeof(sig), "%s%s", kind, cfg.reuse_logs ? ":reuse_logs" : "");
   drv_viol(sig, dt.p, rp.p);
@@ -565,6 +574,23 @@ explore_history(const hist_t *h) {
       d.others_written = 0; check_image(&r, &d, W, S, 0);
       d.others_written = 1; check_image(&r, &d, W, S, 0);
     }
+    /* product: every way of keeping / losing the unsynced tail of each file separately (the crash model lets every
+     * file choose its own length); all-kept and all-lost are the classes above.  At most 5 files with a tail. */
+    {
+      int ntail = 0;
+      unsigned m;
+      for (i = 0; i < r.v->ninodes; i++)
+        if (!r.v->inodes[i]->is_dir && W[i] > S[i]) ntail++;
+      if (ntail > 5) { n_product_capped++; ntail = 5; }
+      if (ntail >= 2)
+        for (m = 1; m + 1 < (1u << ntail); m++) {
+          d.cls = 6; d.prod_mask = m; d.others_written = 0;
+          d.D = nd; check_image(&r, &d, W, S, 0);
+          d.D = wm; check_image(&r, &d, W, S, 0);
+          n_product++;
+        }
+      d.prod_mask = 0;
+    }
     /* torn tails: only the file whose tail grew by the journal entry just before t needs new
      * cuts at this t (the other files' tails were cut at the index where they grew) */
     for (i = 0; i < r.v->ninodes; i++) {
@@ -751,6 +777,7 @@ main(int argc, char **argv) {
     d.torn_ino = (int)json_long(drv.replay, "torn_ino", -1);
     d.torn_len = (size_t)json_long(drv.replay, "torn_len", 0);
     d.others_written = (int)json_long(drv.replay, "others_written", 0);
+    d.prod_mask = (unsigned)json_long(drv.replay, "prod_mask", 0);
     d.paranoid = (int)json_long(drv.replay, "paranoid", 0);
     d.nest_t = (int)json_long(drv.replay, "nest_t", -1);
     d.nest_cls = (int)json_long(drv.replay, "nest_cls", -1);
@@ -769,23 +796,23 @@ main(int argc, char **argv) {
     if (!kcfg_parse(&cfg, item))
       vh_die("bad cfg %s", item);
     if (cfg.universe >= 0) kv_set_universe(cfg.universe);
-    drv_note("cfg %s: all histories of length <= %d over %d operations%s, every journal index, image classes min/max/dir-ahead/data-ahead/intermediate/torn, nested=%d", item, len, nalpha, with_scripted ? " + scripted histories" : "", nested_mode);
+    drv_note("cfg %s: all histories of length <= %d over %d operations%s, every journal index, image classes min/max/dir-ahead/data-ahead/intermediate/torn/per-file product, nested=%d", item, len, nalpha, with_scripted ? " + scripted histories" : "", nested_mode);
     enumerate(len, with_scripted);
   }
   free(copy);
   {
     char s[400];
-    snprintf(s, sizeof(s), "{\"history\":\"%s\",\"crash_points\":\"every journal index 0..J\",\"images_per_point\":\"min,max,dir-ahead,data-ahead,each intermediate D x {synced,written}, torn cuts of the last write\"}", scripted[0]);
+    snprintf(s, sizeof(s), "{\"history\":\"%s\",\"crash_points\":\"every journal index 0..J\",\"images_per_point\":\"min,max,dir-ahead,data-ahead,each intermediate D x {synced,written}, every per-file choice of synced/written length, torn cuts of the last write\"}", scripted[0]);
     if (drv.shard == 0) drv_sample(s);
   }
   {
     char rj[700];
     snprintf(rj, sizeof(rj),
              "\"evaluations\":%llu,\"histories\":%llu,\"crash_points\":%llu,\"journal_entries\":%llu,\"images_generated\":%llu,"
-             "\"distinct_images\":%llu,\"torn_cuts\":%llu,\"recoveries\":%llu,\"followup_runs\":%llu,\"nested_recoveries\":%llu,\"exhaustive\":%s",
+             "\"distinct_images\":%llu,\"torn_cuts\":%llu,\"per_file_product_images\":%llu,\"product_points_capped_at_5_files\":%llu,\"recoveries\":%llu,\"followup_runs\":%llu,\"nested_recoveries\":%llu,\"exhaustive\":%s",
              (unsigned long long)n_recoveries, (unsigned long long)n_hist, (unsigned long long)n_points,
              (unsigned long long)n_journal, (unsigned long long)n_images, (unsigned long long)n_distinct_images,
-             (unsigned long long)n_torn, (unsigned long long)n_recoveries, (unsigned long long)n_followups,
+             (unsigned long long)n_torn, (unsigned long long)n_product, (unsigned long long)n_product_capped, (unsigned long long)n_recoveries, (unsigned long long)n_followups,
              (unsigned long long)n_nested, stop_now ? "false" : "true");
     drv_result(rj);
   }
